@@ -159,3 +159,12 @@ func VerifSearchParamsOwner(s *SearchParams, u *Url) bool { return s.url == u }
 
 // VerifHasSearchParams tells whether the lazily created search parameters exist.
 func VerifHasSearchParams(u *Url) bool { return u.searchParams != nil }
+
+// VerifSearchParamsPairs reads the parameter list without the write-back that Iterate performs.
+func VerifSearchParamsPairs(s *SearchParams) []string {
+	var r []string
+	for _, p := range s.params {
+		r = append(r, p.Name, p.Value)
+	}
+	return r
+}
